@@ -28,6 +28,28 @@ impl GenerationPass for LivenessPass {
         crate::verif_hooks::begin("liveness");
         #[cfg(rva_verif)]
         crate::verif_hooks::pass_begin("liveness", cfg);
+        // u_def[p] AND-ed over the predecessors of a node. Predecessors that
+        // have not been visited yet stand for "everything": a node all of
+        // whose predecessors are still to come starts from the full set, not
+        // from the empty one (only a node without predecessors has nothing
+        // defined before it). Mixing the two - empty for "not known yet" here,
+        // everything for the unvisited ones among several predecessors - gives
+        // the iteration a starting point from which the sets in a loop can
+        // grow and shrink in turns forever.
+        #[allow(clippy::mutable_key_type)]
+        let defined_before =
+            |node: &Rc<crate::cfg::CfgNode>, visited: &HashSet<Rc<crate::cfg::CfgNode>>| {
+                if node.prevs().is_empty() {
+                    return crate::cfg::RegisterSet::new();
+                }
+                node.prevs()
+                    .clone()
+                    .into_iter()
+                    .filter(|x| visited.contains(x))
+                    .map(|x| x.u_def())
+                    .reduce(|acc, x| acc & x)
+                    .unwrap_or_else(Register::all)
+            };
         while changed {
             changed = false;
             #[cfg(rva_verif)]
@@ -58,16 +80,12 @@ impl GenerationPass for LivenessPass {
                     // a garbage value.
                     // TLDR: udef -> return values are a safeguard that the value
                     // has to come from the function.
-                    let u_def = (node
-                        .prevs()
-                        .clone()
-                        .into_iter()
-                        .filter(|x| visited.contains(x))
-                        .map(|x| x.u_def())
-                        .reduce(|acc, x| acc & x)
-                        .unwrap_or_default()
-                        - Register::caller_saved_set())
-                        | (func.exit().u_def() & Register::return_set());
+                    let u_def = (defined_before(&node, &visited) - Register::caller_saved_set())
+                        | (if visited.contains(&*func.exit()) {
+                            func.exit().u_def()
+                        } else {
+                            Register::all()
+                        } & Register::return_set());
 
                     // live_in[n] = (live_in[F_entry] & argument-registers) U (live_out[n] - kill[n])
                     // kill[n] = caller-saved
@@ -82,16 +100,8 @@ impl GenerationPass for LivenessPass {
                     let (args, rets) = node.known_ecall_signature().unwrap_or_default();
 
                     // u_def[n] = (AND u_def[s] for all s in prev[n]) - caller-saved | ecall_returns
-                    let u_def = (node
-                        .prevs()
-                        .clone()
-                        .into_iter()
-                        .filter(|x| visited.contains(x))
-                        .map(|x| x.u_def())
-                        .reduce(|acc, x| acc & x)
-                        .unwrap_or_default()
-                        - Register::caller_saved_set())
-                        | rets;
+                    let u_def =
+                        (defined_before(&node, &visited) - Register::caller_saved_set()) | rets;
 
                     // live_in[n] = (live_out[n] - caller-saved) U ecall_args U ecall_ins
                     // ecall_args = X17 (a7) in every case U inputs to the ecall if known by available value analysis, otherwise empty
@@ -110,14 +120,7 @@ impl GenerationPass for LivenessPass {
                     changed |= node.set_live_in(live_in);
 
                     // u_def[n] = AND u_def[s] for all s in prev[n]
-                    let u_def = node
-                        .prevs()
-                        .clone()
-                        .into_iter()
-                        .filter(|x| visited.contains(x))
-                        .map(|x| x.u_def())
-                        .reduce(|acc, x| acc & x)
-                        .unwrap_or_default();
+                    let u_def = defined_before(&node, &visited);
                     changed |= node.set_u_def(u_def);
                 } else if node.is_function_entry() {
                     // live_in[n] = gen[n] U (live_out[n] - kill[n])
@@ -130,15 +133,7 @@ impl GenerationPass for LivenessPass {
                     changed |= node.set_u_def(u_def);
                 } else {
                     // u_def[n] = AND u_def[s] for all s in prev[n] | kill[n]
-                    let u_def = (node
-                        .prevs()
-                        .clone()
-                        .into_iter()
-                        .filter(|x| visited.contains(x))
-                        .map(|x| x.u_def())
-                        .reduce(|acc, x| acc & x)
-                        .unwrap_or_default())
-                        | node.kill_reg();
+                    let u_def = (defined_before(&node, &visited)) | node.kill_reg();
 
                     // live_in[n] = gen[n] U (live_out[n] - kill[n])
                     let live_in = (node.live_out() - node.kill_reg()) | node.gen_reg();
